@@ -66,6 +66,13 @@ CLAIMS = {
          "(induction on the type code, Hand/Serde.v); the keys are exactly the documented names in order. The implementation's serde_json round trip is run on all scalar types, f32/f64 and nestings to depth 3: every part "
          "bit for bit, and the key sequence of the JSON text against the model. Trusted: serde_derive's and serde_json's semantics as modelled (map with named entries), the leaf float codec (values restricted to those "
          "a plain float round-trips through the same build)."),
+ 'C13': ("Coq proof on a hand-written model of the SubsetOf/SupersetOf impls (values with optional parts, abstract leaf casts): widen-then-narrow = identity, checked narrowing succeeds iff membership, value = per-part cast, presence preserved; model executed in Coq against the implementation",
+         "Hand model (coq/ND/Hand/Subset.v) of to_superset / from_superset / from_superset_unchecked / is_in_subset / float lift and extract on Dual, Dual2, DualVec, Dual2Vec (parts present or absent), for arbitrary leaf "
+         "conversions. Theorems (Props/C13.v, 7, axiom-free): for any widen/narrow with narrow (widen a) = a and in_sub (widen a) = true: narrowing a widened value is the identity (absent parts included), a widened value is a member, "
+         "the checked narrowing succeeds exactly when the membership predicate holds and then returns the per-part cast, presence patterns are preserved, lifting a float gives a constant whose extraction is the float; with simba's "
+         "constantly-true float membership the checked narrowing always succeeds. The model's definitions are evaluated in Coq (the f64->f32 cast looked up from the same Rust build) and compared with the implementation on 520+ "
+         "conversions over {f32,f64}^2, dimensions 0..4 static/dynamic, all presence patterns. NOT proved: memory safety / leak freedom of the unsafe element loops -- a property of the compiled code, not of any Gallina term; the thorough "
+         "tier runs the conversion cases under Miri as supporting evidence only. Exactness of f32->f64 widening is IEEE semantics of `as` (trusted)."),
 }
 props = [json.loads(l) for l in open('/verif/properties.jsonl')]
 checks = []
